@@ -8,6 +8,7 @@ namespace Conc.Dcl
 
 structure Cfg.Safe (cfg : Cfg) : Prop where
   order : cfg.order = .bodyThenStore
+  locks : cfg.locks = true
   started_pos : cfg.recheck = .started → 0 < cfg.writes
 
 /-- nobody is initialising: either nothing has happened yet or everything has -/
@@ -49,7 +50,8 @@ theorem inv_step {cfg : Cfg} (safe : cfg.Safe) {s t : State} (h : Inv cfg s) (st
   cases st with
   | fast_hit i hpc hf => dcl_close
   | fast_miss i hpc hf => dcl_close
-  | lock i hpc hm => dcl_close
+  | lock i hpc _ hm => dcl_close
+  | nolock i hpc hl => rw [safe.locks] at hl; cases hl
   | recheck_hit i hpc hi =>
     have hx := initialised_true hi
     have hrn : List.range cfg.writes = [] → cfg.writes = 0 := range_nil_iff.mp
